@@ -25,4 +25,10 @@ PROPS = {
         rule="each run: 1-6 keys, 1-3 connections; per connection key, address type (IPv4/IPv6/domain), 0-4 messages per direction with sizes from {1..200000} around the 16383 chunk limit, address alone or coalesced with first data, termination order A (client speaks+half-closes first), B (target first), C (concurrent), D (client never half-closes); faults: short reads, 1..4096-byte windows, client RST mid-stream; non-trivial = a connection ran to completion and was compared byte for byte; distinct = distinct (event-log hash, schedule fingerprint)",
         real=["service.StreamServe, streamHandler, findAccessKey, proxyConnection relay, metrics.measuredConn, cipherList, ReplayCache; outline-sdk shadowsocks Reader/Writer on both sides; go-shadowsocks2 socks"],
         stub=COMMON_STUB + ["DNS resolver (scripted)"], assumptions=COMMON_ASSUME),
+    "C01": dict(
+        scenarios=[dict(name="c01", quick=1500, thorough=150000, quick_budget_s=150, thorough_budget_s=1800)],
+        level_text="Seeded exploration: 1-8 client connections (valid under configured / unconfigured / outsider keys, random bytes) from several client IPs race with up to three CipherList.Update calls on the real authenticator and handler; an interval oracle over the key-list versions current during each handshake decides must-authenticate / must-reject / either, attribution must name an id configured with exactly that cipher and secret, and rejected connections must cause no dial and no byte written back (ground-truth ledger). Sampling, not proof.",
+        rule="each run: universe of 1-40 keys (thorough: up to 300; mixed ciphers, duplicate (cipher,secret) pairs, shared secrets), 1-4 key-list versions (random subsets, random order) installed by concurrent updater tasks, 1-8 connections from 4 client IPs with segmentation and short reads; non-trivial = at least one must-authenticate or must-reject verdict was decided; distinct = distinct (event-log hash, schedule fingerprint)",
+        real=["service.NewShadowsocksStreamAuthenticator, findAccessKey/findEntry trial decryption, cipherList (Snapshot/MarkUsed/Update), StreamHandler, StreamServe, ReplayCache; outline-sdk shadowsocks on both sides"],
+        stub=COMMON_STUB, assumptions=COMMON_ASSUME),
 }
